@@ -432,4 +432,21 @@ theorem evaluateInternalList_no_internal (C : Comparator) (σ : Dict Expr) (fn :
     · simp [pure, Except.pure] at h
 end
 
+/-- a fold in the exception monad over a list containing an element on which the step never succeeds has no result -/
+theorem foldlM_never_ok_of_mem {ε α β : Type} (f : β → α → Except ε β) (x : α) (hx : ∀ b, ∀ o, f b x ≠ .ok o) :
+    ∀ (l : List α), x ∈ l → ∀ (b : β) (o : β), l.foldlM f b ≠ .ok o
+  | [], h, _, _ => by simp at h
+  | a :: l, h, b, o => by
+    simp only [List.foldlM]
+    intro hok
+    cases hfa : f b a with
+    | error e => rw [hfa] at hok; simp [bind, Except.bind] at hok
+    | ok b1 =>
+      rw [hfa] at hok
+      simp only [bind, Except.bind] at hok
+      rcases List.mem_cons.mp h with rfl | hl
+      · exact hx b b1 hfa
+      · exact foldlM_never_ok_of_mem f x hx l hl b1 o hok
+
+
 end Bartiq
